@@ -472,10 +472,13 @@ def _carried(ctx):
                     if cb is not None:
                         rep.saw(cb)
                         tc = Tracer(cb)
-                        calls = [x for x in cb.calls()]
-                        if len(calls) == 1 and call_matches(calls[0][1], 'from_operations'):
-                            a = tc.origin(calls[0][1]['args'][0])
-                            okc = a['o'] == 'arg' and a['l'] == 2 and calls[0][1]['dest']['l'] == 0
+                        calls = [x for x in cb.calls() if call_matches(x[1], 'from_operations')]
+                        if len(calls) == 1:
+                            # the item may pass through borrowing adaptors (`op.as_ref()`), the result through a spliced
+                            # `FromStr::from_str` / `str::parse`
+                            a, _st = through(tc, calls[0][1]['args'][0], extra=[(('AsRef>::as_ref', 'AsRef::as_ref', 'Borrow::borrow', 'Deref::deref'), 0)])
+                            ro = tc.origin({'k': 'copy', 'l': 0, 'p': []})
+                            okc = a['o'] == 'arg' and a['l'] == 2 and ro['o'] == 'call' and ro.get('bb') == calls[0][0] and not ro['p']
                     rep.check(okc, 'R5', 'each-string-parsed-by-from_operations', where(ws, bi),
                               'closure = |s| Transform2::from_operations(s)', 'the mapping closure does not parse its own item')
     # from_group: Wallpaper and WyckoffSite from the same group argument
